@@ -32,7 +32,8 @@
        (vm_compute on the tiny table set of Tree/Files.v). *)
 From AV Require Import Base.Bytes Base.Outcome Hash.HashModel Tree.Heap Tree.Ops Tree.Script Tree.Serialize Tree.Inv.
 From AV Require Import Tree.Files Tree.FilesProofsProj Tree.FilesProofsFrame Tree.FilesProofsAdd Tree.FilesProofsRemove Tree.FilesProofsExact Tree.FilesProofsLast Tree.FilesProofsMove
-  Tree.FilesProofsInv Tree.FilesProofsHist Tree.FilesProofsTop Tree.FilesProofsExact2 Tree.FilesProofsOwned Tree.FilesProofsText Tree.FilesProofsLoad.
+  Tree.FilesProofsInv Tree.FilesProofsHist Tree.FilesProofsTop Tree.FilesProofsExact2 Tree.FilesProofsOwned Tree.FilesProofsText Tree.FilesProofsLoad Tree.FilesProofsOp2.
+From AV Require Import Tree.Script2.
 From AV Require Tree.Index Xml.Parser Xml.Serializer Xml.RoundTripFile.
 Open Scope list_scope.
 Open Scope N_scope.
@@ -306,6 +307,102 @@ Theorem C10_file_self_contained :
       exists st, Parser.load strict T tab_el tab_at tab_en check_fn float_parse text = Val (Parser.Ret t st) /\
                  Parser.p_warnings st = [] /\ Parser.p_version st = ver /\ Parser.p_standalone st = f_standalone fl.
 Proof. exact file_self_contained. Qed.
+
+(* ---------- the remove_file theorems with FilesOwned in place of the Unowned exclusion ---------- *)
+Theorem C10_remove_file_exact_owned :
+  forall (T : tables) (m f : N) (w : world) (r : out unit) (w' : world) (x : model),
+  TreeInv w -> FilesInv T w -> FilesOwned w ->
+  Known_root_last w (OpRemoveFile m f) = false -> last_file w (OpRemoveFile m f) = false ->
+  (forall i n, Reach w (m_root x) i -> w_nodes w i = Some n -> n_name n = SHORT T -> n_files n = []) ->
+  m_remove_file T m f w = Val (r, w') -> model_b w m = Some x -> In f (m_files x) ->
+  forall i, Reach w (m_root x) i -> (Reach w' (m_root x) i <-> exists g, g <> f /\ Attributed w i g).
+Proof. exact remove_file_exact_owned. Qed.
+
+Theorem C10_remove_file_exact_index_owned :
+  forall (T : tables) (m f : N) (w : world) (r : out unit) (w' : world) (x : model),
+  TreeInv w -> FilesInv T w -> FilesOwned w ->
+  Known_root_last w (OpRemoveFile m f) = false -> last_file w (OpRemoveFile m f) = false ->
+  (forall i n, Reach w (m_root x) i -> w_nodes w i = Some n -> n_name n = SHORT T -> n_files n = []) ->
+  m_remove_file T m f w = Val (r, w') -> model_b w m = Some x -> In f (m_files x) ->
+  Index.IndexExact T w' m ->
+  forall i, Reach w (m_root x) i -> ~ (exists g, g <> f /\ Attributed w i g) ->
+  forall x' p, model_b w' m = Some x' -> assoc_get p (m_idents x') <> Some i.
+Proof. exact remove_file_exact_index_owned. Qed.
+
+Theorem C10_remove_file_exact_refs_owned :
+  forall (T : tables) (m f : N) (w : world) (r : out unit) (w' : world) (x : model),
+  TreeInv w -> FilesInv T w -> FilesOwned w ->
+  Known_root_last w (OpRemoveFile m f) = false -> last_file w (OpRemoveFile m f) = false ->
+  (forall i n, Reach w (m_root x) i -> w_nodes w i = Some n -> n_name n = SHORT T -> n_files n = []) ->
+  m_remove_file T m f w = Val (r, w') -> model_b w m = Some x -> In f (m_files x) ->
+  Index.RefsExact T w' m ->
+  forall i, Reach w (m_root x) i -> ~ (exists g, g <> f /\ Attributed w i g) ->
+  forall x' p, model_b w' m = Some x' -> ~ In i (Index.origins_of x' p).
+Proof. exact remove_file_exact_refs_owned. Qed.
+
+Theorem C10_remove_file_other_tree_owned :
+  forall (T : tables) (m f : N) (w : world) (r : out unit) (w' : world) (x : model),
+  TreeInv w -> FilesInv T w -> FilesOwned w ->
+  Known_root_last w (OpRemoveFile m f) = false -> last_file w (OpRemoveFile m f) = false ->
+  (forall i n, Reach w (m_root x) i -> w_nodes w i = Some n -> n_name n = SHORT T -> n_files n = []) ->
+  m_remove_file T m f w = Val (r, w') -> model_b w m = Some x -> In f (m_files x) ->
+  forall g, g <> f -> Attributed w (m_root x) g ->
+  forall fuel t, fproj fuel w (Some g) (m_root x) = Some t -> fproj fuel w' (Some g) (m_root x) = Some t.
+Proof. exact remove_file_other_tree_owned. Qed.
+
+Theorem C10_remove_file_other_text_owned :
+  forall (T : tables) (m f : N) (w : world) (r : out unit) (w' : world) (x : model),
+  TreeInv w -> FilesInv T w -> FilesOwned w ->
+  Known_root_last w (OpRemoveFile m f) = false -> last_file w (OpRemoveFile m f) = false ->
+  (forall i n, Reach w (m_root x) i -> w_nodes w i = Some n -> n_name n = SHORT T -> n_files n = []) ->
+  m_remove_file T m f w = Val (r, w') -> model_b w m = Some x -> In f (m_files x) ->
+  forall g, g <> f ->
+  forall (tab_el tab_at tab_en : nametab) (float_fmt : N -> list N),
+  Attributed w (m_root x) g -> CharsLeaf T w -> KeepsSome T w f g (m_root x) ->
+  forall fuel indent inline,
+    ser_heap T tab_el tab_at tab_en float_fmt fuel w' (Some g) (m_root x) indent inline =
+    ser_heap T tab_el tab_at tab_en float_fmt fuel w (Some g) (m_root x) indent inline.
+Proof. exact remove_file_other_text_owned. Qed.
+
+(* ---------- the extended alphabet op2 (Tree/Script2.v): sort, sort model, duplicate, load, set_version,
+   check_version_compatibility, serialize file / element.  step_ok2: an Op1 step avoids C03's Known classes, Known10 and
+   RootNamedLast; OpLoad and OpDuplicate are PENDING (pending2); every other op2 step is unconditional. ---------- *)
+Theorem C10_step2_owned :
+  forall (T : tables) (tab_el tab_at tab_en : nametab) (check_fn : N -> list N -> res bool)
+         (float_parse : list N -> option N) (float_fmt : N -> list N)
+         (LATEST name_index name_definition_ref attr_schema_location : N) (root_attrs : list (N * cdata))
+         (o : op2) (w : world) (r : out value2) (w' : world),
+  TreeInv w -> FilesInv T w -> FilesOwned w ->
+  step_ok2 T tab_el tab_en check_fn LATEST root_attrs w o = true ->
+  run_op2 T tab_el tab_at tab_en check_fn float_parse float_fmt LATEST name_index name_definition_ref
+          attr_schema_location root_attrs o w = Val (r, w') ->
+  TreeInv w' /\ FilesInv T w' /\ FilesOwned w'.
+Proof. exact step2_inv. Qed.
+
+Theorem C10_history2_owned :
+  forall (T : tables) (tab_el tab_at tab_en : nametab) (check_fn : N -> list N -> res bool)
+         (float_parse : list N -> option N) (float_fmt : N -> list N)
+         (LATEST name_index name_definition_ref attr_schema_location : N) (root_attrs : list (N * cdata))
+         (l : list op2) (w w' : world),
+  TreeInv w -> FilesInv T w -> FilesOwned w ->
+  steps_ok2 T tab_el tab_at tab_en check_fn float_parse float_fmt LATEST name_index name_definition_ref
+            attr_schema_location root_attrs l w = true ->
+  run_ops2 T tab_el tab_at tab_en check_fn float_parse float_fmt LATEST name_index name_definition_ref
+           attr_schema_location root_attrs l w = Val w' ->
+  TreeInv w' /\ FilesInv T w' /\ FilesOwned w'.
+Proof. exact inv_histories2_owned. Qed.
+
+Theorem C10_reachable2_owned :
+  forall (T : tables) (tab_el tab_at tab_en : nametab) (check_fn : N -> list N -> res bool)
+         (float_parse : list N -> option N) (float_fmt : N -> list N)
+         (LATEST name_index name_definition_ref attr_schema_location : N) (root_attrs : list (N * cdata))
+         (l : list op2) (w' : world),
+  steps_ok2 T tab_el tab_at tab_en check_fn float_parse float_fmt LATEST name_index name_definition_ref
+            attr_schema_location root_attrs l empty_world = true ->
+  run_ops2 T tab_el tab_at tab_en check_fn float_parse float_fmt LATEST name_index name_definition_ref
+           attr_schema_location root_attrs l empty_world = Val w' ->
+  TreeInv w' /\ FilesInv T w' /\ FilesOwned w'.
+Proof. exact reachable2_owned. Qed.
 
 Theorem C10_self_contained :
   forall (T : tables) (Loads : world -> option N -> id -> Prop),
